@@ -325,6 +325,31 @@ func ledgerFamily(run *core.Run, o ledgerFamilyOpts) {
 		}
 	}
 	run.Set("locked_entries_released_in_the_validated_traces_by_kind", released)
+	collections := 0
+	for _, r := range runs {
+		for _, ev := range r.Events {
+			rw, ok := ev["rew"]
+			if !ok {
+				continue
+			}
+			js, _ := json.Marshal(rw)
+			var list []struct {
+				MintZnn []int `json:"mintZnn"`
+				MintQsr []int `json:"mintQsr"`
+			}
+			if json.Unmarshal(js, &list) == nil {
+				for _, x := range list {
+					if len(x.MintZnn) > 0 || len(x.MintQsr) > 0 {
+						collections++
+					}
+				}
+			}
+		}
+	}
+	run.Set("momentums_with_reward_collections_in_the_validated_traces", collections)
+	if strings.Contains(o.invariants, "CollectedRight") && collections == 0 {
+		core.Fatal("vacuity: no reward collection in any validated trace")
+	}
 	verdicts, states, err := validateLedgerRuns(runs, o.invariants)
 	if err != nil {
 		core.Fatal("%v", err)
